@@ -167,6 +167,13 @@ func runC14(c *an.Ctx) {
 				del := deleteOnly(r.Results[0])
 				c.Check(del, "R2", key, r.Pos(), "length comparison on a delete-only result ("+out+")", "the change flag compares lengths although the output ("+out+") is not produced by a delete-only call: a same-length rewrite (e.g. &nGg; -> 5 bytes) is reported as unchanged")
 			default:
+				if re := reencodingCall(r.Results[0]); re != "" {
+					// strings.Map and the case-mapping functions decode their input as UTF-8 and write
+					// U+FFFD for every byte that is not: the output can differ from the input although
+					// the mapping never asked for a change, so only a content comparison is sound.
+					c.Bad("R2", key, r.Pos(), "the output comes from "+re+", which rewrites bytes that are not valid UTF-8 whatever the mapping does, but the change flag ("+flag+") is not the content comparison input != output")
+					return
+				}
 				nUndecided++
 				c.Note("R2", key, r.Pos(), "computed flag "+flag+": not decided")
 			}
@@ -553,3 +560,25 @@ func runningValueDiscipline(v ssa.Value, from *ssa.BasicBlock, run *ssa.Phi, mul
 }
 
 func relPkgPath(p string) string { return strings.TrimPrefix(strings.TrimPrefix(p, an.ModPath), "/") }
+
+
+// reencodingCall names the standard-library call producing v when that call re-encodes its
+// whole argument as UTF-8 (invalid bytes become U+FFFD), or "".
+func reencodingCall(v ssa.Value) string {
+	switch x := v.(type) {
+	case *ssa.Call:
+		if f := x.Call.StaticCallee(); f != nil && f.Pkg != nil && f.Pkg.Pkg.Path() == "strings" {
+			switch f.Name() {
+			case "Map", "ToLower", "ToUpper", "ToTitle", "Title", "ToValidUTF8", "ToLowerSpecial", "ToUpperSpecial":
+				return "strings." + f.Name()
+			}
+		}
+	case *ssa.Convert:
+		if sl, ok := x.X.Type().Underlying().(*types.Slice); ok {
+			if b, ok := sl.Elem().Underlying().(*types.Basic); ok && b.Kind() == types.Int32 {
+				return "string([]rune)"
+			}
+		}
+	}
+	return ""
+}
